@@ -133,7 +133,8 @@ Lemma spec_observe_restrict m sds ls ops :
   spec_observe m sds [ls] (map (restrict_op ls) ops) = spec_observe m sds [ls] ops.
 Proof.
   unfold spec_observe. simpl. f_equal. apply map_ext. intros [i sd]. simpl.
-  rewrite (eff_syncs_restrict ls ops false None), last_good_restrict. apply spec_effective_restrict.
+  change (@None cmap) with (option_map (restrict_cmap ls) None) at 1.
+  rewrite eff_syncs_restrict, last_good_restrict. apply spec_effective_restrict.
 Qed.
 
 (* Over ANY history of ConfigMap events: what node [ls] observes after every event is unchanged
